@@ -548,6 +548,7 @@ def stepLine (st : State) (w : List String) : State × String :=
         | .fatal _ => (st, "handler")
         | .normal _ => (st, "normal-same")
     | _, _ => (st, "bad-op")
+  | ["thrstress", _, _] => (st, "ok")         -- C14_serial on the writer's rare rendering paths, repeated
   | ["thrcase", _, _, _] => (st, "ok")
   | ["thrcase", _, _, _, _] => (st, "ok")     -- C14_serial: every thread's transcript equals its serial transcript
   | ["lex", text] =>
